@@ -80,6 +80,7 @@ def build_roots(kinds):
             TV = 'Transition<Vec2<f32>, %s, f32>' % MT
             add('r_trv_%s_%s' % (acc, mp), 'pub fn r_trv_%s_%s(t: %s) -> Vec2<f32> { %s }' % (acc, mp, TV, call), kind='trans', clamped=cl, mapper=mp, elem='Vec2')
     add('r_tr_ctor', 'pub fn r_tr_ctor(a: f32, b: f32, p: f32) -> (Transition<f32, IdentityProgressMapper, f32>, Transition<f32, IdentityProgressMapper, f32>, core::ops::Range<f32>) { (Transition::with_mapper(a, b, IdentityProgressMapper), Transition::with_mapper_and_progress(a, b, IdentityProgressMapper, p), Transition::with_mapper_and_progress(a, b, IdentityProgressMapper, p).into_range()) }', kind='trctor')
+    add('r_tr_lin_ctor', 'pub fn r_tr_lin_ctor(a: f32, b: f32, p: f32) -> (LinearTransition<f32, f32>, LinearTransition<f32, f32>, f32, f32) { (LinearTransition::new(a, b), LinearTransition::with_progress(a, b, p), LinearTransition::<f32, f32>::with_progress(a, b, p).into_current_unclamped(), LinearTransition::<f32, f32>::new(a, b).into_current_unclamped()) }', kind='trlin')
     add('r_tr_from_range', 'pub fn r_tr_from_range(a: f32, b: f32) -> Transition<f32, IdentityProgressMapper, f32> { Transition::from(a..b) }', kind='trrange')
     return roots, meta
 
@@ -191,10 +192,16 @@ def run(ctx):
                 p = rs.only(); a, b, pr = sym('a0'), sym('a1'), sym('a2')
                 got = leaves(p.ret)
                 vec_eq(ctx, key, got, [a, b, C(0), a, b, pr, a, b], 'perm: with_mapper starts at progress 0; with_mapper_and_progress keeps the progress; into_range = start..end', w)
+            elif k == 'trlin':
+                p = rs.only(); a, b, pr = sym('a0'), sym('a1'), sym('a2')
+                got = leaves(p.ret)
+                vec_eq(ctx, key, got[:6], [a, b, C(0), a, b, pr], 'perm: LinearTransition::new starts at progress 0; with_progress keeps start, end and progress', w)
+                ctx.same(key + '/current', got[6], a + (b - a) * pr, 'alg=: the current value of a linear transition is the interpolation at its progress', w)
+                ctx.same(key + '/current-at-start', got[7], a, 'alg=: a new transition is at its start', w)
             elif k == 'trrange':
                 p = rs.only()
                 vec_eq(ctx, key, leaves(p.ret), [sym('a0'), sym('a1'), C(0)], 'perm: Transition::from(start..end) starts at progress 0', w)
-        except AssertionError as e:
+        except (AssertionError, KeyError, ValueError, TypeError, IndexError, ZeroDivisionError, AttributeError) as e:
             ctx.ob(key + '/paths', False, 'path structure', w, 'analysable', str(e))
     ctx.floor('roots analysed', done, len(roots))
     ctx.floor('integer Lerp impls covered (10 types x 2 factor types x 4 forms x value/ref)', sum(1 for r in roots if meta[r.name]['kind'] == 'int'), 160)
